@@ -42,7 +42,7 @@ META = {
 }
 
 PUBS = ['p1', 'p2', 'p3']
-MUTS = ['after_write', 'newest', 'batch']
+MUTS = ['after_write', 'newest', 'batch', 'none_paused', 'neg_waives']
 
 
 def tlc_check(module, cfg, **kw):
@@ -143,10 +143,15 @@ def sim_to_round(beh, rng, rid):
             if cur:
                 waves.append(cur)
             cur = {p: [{'a': 'Read'}] for p in PUBS}
+        elif a['a'] == 'Pause':
+            # PauseStream needs quiescence: it starts a new wave (driver step '#')
+            if cur:
+                waves.append(cur)
+            cur = {'#': [{'a': 'Pause'}]}
     if any(s['a'] == 'Send' for steps in cur.values() for s in steps):
         waves.append(cur)
     first = core.tlaval.state_var(beh[0]['body'], 'cfg')
-    return decorate_round(rid, first['occ'], waves, rng)
+    return decorate_round(rid, first['occ'], waves, rng, path=first['path'])
 
 
 def random_round(rng, rid):
@@ -165,24 +170,30 @@ def random_round(rng, rid):
                 if shape == 'race':
                     kind = rng.choice(['equal', 'equal', 'equal', 'future', 'waive'])
                 elif shape == 'allbad':
-                    kind = rng.choice(['stale', 'future', 'far', 'future'])
+                    kind = rng.choice(['stale', 'future', 'far', 'future', 'neg', 'negbig'])
                 else:
-                    kind = rng.choice(['waive', 'stale', 'equal', 'future', 'far'])
+                    kind = rng.choice(['waive', 'stale', 'equal', 'future', 'far', 'neg', 'negbig'])
                 steps.append({'a': 'Send', 'kind': kind, 'pol': 'leader'})
             wave[p] = steps
         if wave:
             waves.append(wave)
-    if rng.random() < 0.08:
+    if rng.random() < 0.12:
         p = rng.choice(pubs)
-        waves[-1].setdefault(p, []).insert(0, {'a': 'Send', 'kind': rng.choice(['equal', 'far', 'waive']), 'pol': 'none'})
+        waves[-1].setdefault(p, []).insert(0, {'a': 'Send', 'kind': rng.choice(['equal', 'far', 'waive', 'stale']), 'pol': 'none'})
+    # partition state: some waves find the partition paused (the first publish that passes the API resumes it)
+    for w in waves:
+        if rng.random() < 0.2:
+            w['#'] = [{'a': 'Pause'}]
     return decorate_round(rid, rng.random() < 0.92, waves, rng)
 
 
-def decorate_round(rid, occ, waves, rng):
-    pubs = sorted({p for w in waves for p in w}) or PUBS[:2]
+def decorate_round(rid, occ, waves, rng, path=None):
+    pubs = sorted({p for w in waves for p in w if p != '#'}) or PUBS[:2]
     has_none = False
     for w in waves:
-        for steps in w.values():
+        for who, steps in w.items():
+            if who == '#':
+                continue
             for s in steps:
                 if s['a'] != 'Send':
                     continue
@@ -197,17 +208,21 @@ def decorate_round(rid, occ, waves, rng):
         # a publish with ack policy NONE is followed by an acknowledged one of every publisher before the log is read
         waves.append({p: [{'a': 'Send', 'kind': 'waive', 'pol': 'leader'}] for p in pubs})
     batch, ms = rng.choice([(1, 0), (2, 0), (8, 0), (1024, 0), (2, 2), (8, 3), (1024, 1)])
-    cfg = {'occ': occ, 'batch': batch, 'batchMs': ms, 'path': rng.choice(['async', 'async', 'async', 'sync']),
-           'pubs': pubs}
+    cfg = {'occ': occ, 'batch': batch, 'batchMs': ms,
+           'path': path or rng.choice(['async', 'async', 'async', 'sync']), 'pubs': pubs}
     return {'id': rid, 'cfg': cfg, 'steps': waves}
 
 
-def none_case(rid, path, right):
-    """ack policy NONE on a stream with concurrency control: one publisher; stored message, the NONE publish (with a
-    wrong or the right expectation), an acknowledged publish, then the log is read"""
+def none_case(rid, path, kind, paused):
+    """ack policy NONE on a stream with concurrency control, on a running and on a paused partition: one publisher;
+    a stored message, [PauseStream,] the NONE publish (with a wrong or the right expectation), an acknowledged
+    publish, then the log is read"""
+    mid = {'p1': [{'a': 'Send', 'kind': kind, 'pol': 'none'}]}
+    if paused:
+        mid['#'] = [{'a': 'Pause'}]
     return {'id': rid, 'cfg': {'occ': True, 'batch': 8, 'batchMs': 0, 'path': path, 'pubs': ['p1']},
-            'steps': [{'p1': [{'a': 'Send', 'kind': 'waive', 'pol': 'leader'}]},
-                      {'p1': [{'a': 'Send', 'kind': 'equal' if right else 'far', 'pol': 'none'}]},
+            'steps': [{'p1': [{'a': 'Send', 'kind': 'waive', 'pol': 'leader'}, {'a': 'Send', 'kind': 'waive', 'pol': 'leader'}]},
+                      mid,
                       {'p1': [{'a': 'Send', 'kind': 'waive', 'pol': 'leader'}]}]}
 
 
@@ -281,13 +296,19 @@ def sv_judge(rep, rounds, trace, confirm=True):
 
 def sv_stats(events):
     st = {'rounds': 0, 'msgs': 0, 'ok': 0, 'refused': 0, 'timeouts': 0, 'nontrivial_ids': [], 'exact_refusals': 0,
-          'races_same_exp': 0, 'aborted': 0, 'other_answers': 0}
+          'races_same_exp': 0, 'aborted': 0, 'other_answers': 0, 'pauses': 0, 'rounds_with_pause': 0,
+          'none_on_occ': 0, 'none_refused': 0, 'sync_rounds': 0}
     for e in events:
         if e['a'] == 'Aborted':
             st['aborted'] += 1
         if e['a'] != 'Round':
             continue
         st['rounds'] += 1
+        st['pauses'] += e.get('pauses', 0)
+        st['rounds_with_pause'] += 1 if e.get('pauses', 0) else 0
+        st['sync_rounds'] += 1 if e['cfg']['path'] == 'sync' else 0
+        st['none_on_occ'] += sum(1 for m in e['msgs'] if m['pol'] == 'none' and e['cfg']['occ'])
+        st['none_refused'] += sum(1 for m in e['msgs'] if m['pol'] == 'none' and m['res'] == 'bad_request')
         st['msgs'] += len(e['msgs'])
         st['timeouts'] += e.get('timeouts', 0)
         st['other_answers'] += sum(1 for m in e['msgs'] if m['res'] == 'other')
@@ -350,8 +371,9 @@ def run_server(rep, tier, seed, rng):
     for _ in range(nrand):
         rounds.append(random_round(rng, len(rounds) + 1))
     for path in ('async', 'sync'):
-        for right in (False, True):
-            rounds.append(none_case(len(rounds) + 1, path, right))
+        for paused in (False, True):
+            for kind in ('equal', 'far', 'stale'):
+                rounds.append(none_case(len(rounds) + 1, path, kind, paused))
     with core.scratch('c16sv') as d:
         trace, died = sv_execute(rounds, d)
         tr, events = sv_judge(rep, rounds, trace)
